@@ -1293,4 +1293,5 @@ func main() {
 		}
 	}
 	emitContents(*repo, *outDir)
+	emitLevel(*repo, *outDir)
 }
